@@ -16,6 +16,7 @@ mod nf;
 mod optable;
 mod gen;
 mod pipe;
+mod progen;
 mod util;
 
 fn main() {
@@ -52,6 +53,7 @@ fn main() {
         "c11" => c11gen::run(&tier, seed),
         "c12" => c12::run(&tier, seed),
         "pipe" => pipe::run(&tier, seed),
+        "progen" => progen::run(&tier, seed),
         "slots" => slots::run(&tier, seed),
         "diffops" => {
             diffops::run(&args[2], &args[3]);
